@@ -50,6 +50,8 @@ def cases(tier, seed):
         case = {"table": table, "px": px, "o": o, "chunk": rng.choice([0, 2, 5, 10 ** 6]), "store": h % 5 == 0, "witness": False}
         if h % 10 in (4, 5):
             case["at"] = ["/resolutions/1000", "/a/b"][h % 2]      # a level of a multires file / any nested group
+        if h % 7 == 6:
+            case["prior"] = True                                   # the path held another collection before
         if h % 11 == 4 and not x0:
             case["via"] = "cli"
             case["o"]["rescale"] = True
